@@ -53,8 +53,8 @@ def stf_prop(targets, mask, assumptions, rule_extra=""):
             "rule": STF_RULE + rule_extra, "assumptions": assumptions}
 
 PROPS.update({
-    "C01": stf_prop(["STF/Proofs/Supply.vo", "STF/Proofs/Pool.vo", "STF/Proofs/BatchSupply.vo", "STF/Proofs/SealSupply.vo", "STF/Proofs/SealLift.vo", "STF/Proofs/Witness3.vo"], ST_COINS | ST_POOLS | ST_FEES | ST_CODE,
-                    ["proved for all inputs: the whole-batch inequality (coins + fee pool + tips <= before + explicit issuance, pools untouched), the three settlement phases of a block over all pools, and the whole seal for every custom denomination; not proved: MEL/SYM/ERG across the peg, the TIP-909 subsidy and the built-in bootstrap in one inequality (their issuance is evaluated by the reflection on every real seal)",
+    "C01": stf_prop(["STF/Proofs/Supply.vo", "STF/Proofs/Pool.vo", "STF/Proofs/BatchSupply.vo", "STF/Proofs/SealSupply.vo", "STF/Proofs/SealLift.vo", "STF/Proofs/SealPegged.vo", "STF/Proofs/SupplyHistory.vo", "STF/Proofs/Witness3.vo", "STF/Proofs/Witness7.vo"], ST_COINS | ST_POOLS | ST_FEES | ST_CODE,
+                    ["proved for all inputs and whole histories (C01_every_history, C01_every_history_mel_sym): what exists of a denomination grows by at most the sum of the explicit issuances of the steps - batch issuance, built-in pool bootstrap, the peg nudge capped at 2^128/throttler, the scheduled SYM subsidy; the whole seal is proved for MEL and SYM too (C01_seal_mel_sym). Before: the whole-batch inequality (coins + fee pool + tips <= before + explicit issuance, pools untouched), the three settlement phases of a block over all pools, and the whole seal for every custom denomination; not proved: MEL/SYM/ERG across the peg, the TIP-909 subsidy and the built-in bootstrap in one inequality (their issuance is evaluated by the reflection on every real seal)",
                      "hash-oracle assumptions HashOK (STF/Proofs/HashFacts.v) for the batch theorem; request coins as declared, distinct ids, sums below 2^128 and no saturation of issued liquidity for the seal theorems",
                      "pool sides are attributed to denominations through the key bytes"]),
     "C03": stf_prop(["STF/Proofs/Perm.vo", "STF/Proofs/PermAccept.vo", "STF/Proofs/SeqApply.vo", "STF/Proofs/Witness.vo"], ST_COINS | ST_CODE | ST_FEES,
@@ -66,7 +66,7 @@ PROPS.update({
     "C09": {"coq_targets": ["STF/Proofs/Total.vo", "STF/Proofs/NoPanicBatch.vo", "STF/Proofs/SealTotal.vo", "STF/Proofs/Witness6.vo"], "case_libs": ["Cases/Reflect.vo"], "streams": [("stf", ST_CODE), ("vm", VM_RESULT | VM_FUEL)],
             "rule": STF_RULE + "; vm stream: every generated program runs under catch_unwind with a step cap; C09: any panic or step-cap hit on the real code is a violation",
             "assumptions": ["proved: per-site unreachability and totality of a whole batch (C09_batch_never_panics) under stated state invariants and bounds (height <= 3*10^6, mint difficulty <= 40, per-transaction input sums < 2^128) and of a whole seal (C09_seal_never_panics) under C20's invariant, C16's live and undrainable built-in pools, the subsidy-shift bound on the height and the 2^128 bound on fee pool + tips + MEL/SYM reserve; totality of apply_block (their composition with the header check) over histories is checked on the real code (debug build, overflow checks on)", "allocation failure, stack depth and dependency internals are outside the model"]},
-    "C02": stf_prop(["STF/Proofs/Coins.vo"], ST_COINS | ST_CODE | ST_TXS,
+    "C02": stf_prop(["STF/Proofs/Coins.vo", "STF/Proofs/CoinHistory.vo"], ST_COINS | ST_CODE | ST_TXS,
                     ["distinct transactions have distinct hashes and dedup markers are not output coin ids (hash-oracle assumptions of the set equation)",
                      "rejection leaves the state unchanged: checked on the real code after every rejected batch (coin root, transaction set)"]),
     "C15": stf_prop(["STF/Proofs/Pool.vo", "STF/Proofs/SealCoins.vo", "STF/Proofs/SealSupply.vo", "STF/Proofs/PoolKeys.vo", "STF/Proofs/SealLift.vo", "STF/Proofs/Witness2.vo"], ST_COINS | ST_POOLS,
@@ -81,17 +81,17 @@ PROPS.update({
     "C06": stf_prop(["STF/Proofs/Block.vo"], ST_ALL,
                     ["the five Merkle roots are a function rf of the state (any function in the theorems; the real roots in the check)"],
                     "; C06: honest blocks must be accepted, each of 16 single-field mutations rejected (harness), apply_block replayed on the model"),
-    "C07": {"coq_targets": ["STF/Proofs/Block.vo", "Merkle/Smt.vo", "Merkle/Dense.vo", "Cases/MerkleLib.vo"], "case_libs": ["Cases/Reflect.vo"],
+    "C07": {"coq_targets": ["STF/Proofs/Block.vo", "STF/Proofs/ChainHistory.vo", "Merkle/Smt.vo", "Merkle/Dense.vo", "Cases/MerkleLib.vo"], "case_libs": ["Cases/Reflect.vo"],
             "streams": [("stf", ST_HIST | ST_HDR | ST_NET), ("merkle", 7)],
             "rule": STF_RULE + "; merkle stream: random small novasmt trees built by random insert/overwrite/delete histories with shared key prefixes; the model recomputes the root (sparse root function) and climbs every FullProof (present keys, an absent key, wrong values) with the real hash evaluations supplied as tables; dense cases: DenseMerkleTree of 0..9 (quick) / 0..33 (thorough) blocks, the model recomputes the root, checks verify_dense on every proof and a wrong leaf, and rebuilds every proof",
             "assumptions": ["hash functions are abstract in the theorems; soundness assumes a collision-free hash (hypothesis, not axiom)", "the stake tree's construction is checked on the real crate only"]},
-    "C08": stf_prop(["STF/Proofs/Block.vo"], ST_ALL,
+    "C08": stf_prop(["STF/Proofs/Block.vo", "STF/Proofs/MiscHistory.vo"], ST_ALL,
                     ["the content-addressed store returns the trees the header roots name (from_block takes them from the same maps)"],
                     "; C08: after every restart both lineages run three further blocks and their headers are compared"),
     "C13": stf_prop(["STF/Proofs/Stakes.vo", "STF/Proofs/StakeHistory.vo"], ST_STAKES | ST_CODE, ["StakeDoc decoding (stdcode) is an oracle field", "history theorem (C13_locked_for_life): per-step hash-oracle assumptions (HashOK, the stake transaction's hash is not a faucet marker id, a pool request's hash or a reward id), input indices are bytes, heights outside the legacy range below 900000"]),
     "C14": stf_prop(["STF/Proofs/Confirm.vo"], ST_CONFIRM, ["Ed25519 verification and the header hash are oracles"]),
-    "C17": stf_prop(["STF/Proofs/FeeMult.vo", "STF/Proofs/Frame.vo"], ST_MULT, []),
-    "C18": stf_prop(["STF/Proofs/Dosc.vo"], ST_MULT | ST_CODE, ["melpow::Proof::verify is an oracle answered by the real crate per (proof, seed header, coin, difficulty)"]),
+    "C17": stf_prop(["STF/Proofs/FeeMult.vo", "STF/Proofs/Frame.vo", "STF/Proofs/MiscHistory.vo"], ST_MULT, []),
+    "C18": stf_prop(["STF/Proofs/Dosc.vo", "STF/Proofs/MiscHistory.vo"], ST_MULT | ST_CODE, ["melpow::Proof::verify is an oracle answered by the real crate per (proof, seed header, coin, difficulty)"]),
     "C19": stf_prop(["STF/Proofs/Faucet.vo", "STF/Proofs/FaucetHistory.vo", "STF/Proofs/Witness5.vo"], ST_COINS | ST_CODE, ["faucet markers are distinct from every other coin id (hash oracle); no covenant hashes to 0", "history theorem (C19_at_most_once_anywhere): the marker id is not the hash of any transaction of the history nor a proposer-reward id, and no transaction lists a covenant whose hash is the zero address"]),
 })
 
@@ -101,7 +101,7 @@ def _stf_text(text, note, technique):
     return {"text": text, "note": note + " Model tied to the code by replaying every recorded step of the stf stream on the Gallina model (full-state comparison) and by evaluating the property's boolean reflection on the implementation's own before/after states.", "technique": technique}
 
 MANIFEST_TEXT = {
-    "C01": _stf_text("Coq theorems. Batch: under the hash-oracle assumptions, for every denomination the coins, fee pool and tips after an accepted batch are at most those before plus the explicit issuance (everything a faucet declares, a transaction's own new token, the ERG outputs of a mint), pools untouched - built from per-transaction balance, inputs consumed once, and the supply algebra of the coin map. Seal: each pool phase (swaps, deposits, withdrawals) conserves reserve + coins per side and moves liquidity tokens with the recorded liquidity; over all pools and the three phases the potential 'coins + reserves against recorded liquidity' never grows; over a whole seal this holds for every custom denomination. The reflection evaluates supply' <= supply + issuance on every real batch and seal.",
+    "C01": _stf_text("Coq theorems. Batch: under the hash-oracle assumptions, for every denomination the coins, fee pool and tips after an accepted batch are at most those before plus the explicit issuance (everything a faucet declares, a transaction's own new token, the ERG outputs of a mint), pools untouched - built from per-transaction balance, inputs consumed once, and the supply algebra of the coin map. Seal: each pool phase (swaps, deposits, withdrawals) conserves reserve + coins per side and moves liquidity tokens with the recorded liquidity; over all pools and the three phases the potential 'coins + reserves against recorded liquidity' never grows; over a whole seal this holds for every custom denomination and ERG; for MEL and SYM the whole seal adds at most the bootstrap, the peg nudge (capped at 2^128/throttler) and the scheduled SYM subsidy, the subsidy's MEL going to the fee pool and the proposer reward coming out of fee pool and tips (C01_seal_mel_sym); and over every history of batches and blocks what exists of any denomination grows by at most the sum of the steps' explicit issuances (C01_every_history). The reflection evaluates supply' <= supply + issuance on every real batch and seal.",
                      'Partial only for MEL/SYM/ERG at seal: the issuance of peg, TIP-909 subsidy and built-in bootstrap is evaluated per observation, not folded into one theorem.', 'Coq proof (map-fold algebra, induction over batches / pools / phases, nia) + supply reflection on every real step'),
     "C03": _stf_text('Coq theorems: if one presentation of a set of transactions is accepted then every permutation is accepted with the same state (all twelve components), and the outcome equals applying the transactions one at a time in any order in which no transaction spends an output of itself or a later one - under the hash-oracle assumptions and the counts invariant; by symmetry rejection is order-free too. Checked on the real code for every batch of the stream: all permutations (<= 4 members), rotations, rayon pools of 1 and 3 threads, one-at-a-time application.',
                      'Thread schedules are explored, not proved (no theorem about a sequential model can exhibit them).', 'Coq proof (Permutation over gmap folds, head/tail split of a batch, state extensionality) + exhaustive small-permutation and thread-pool exploration'),
@@ -109,7 +109,7 @@ MANIFEST_TEXT = {
                      "Hash and Ed25519 are oracles.", "Coq proof (induction over inputs, symbolic execution) + differential replay + independent re-evaluation of every covenant"),
     "C09": _stf_text("Coq theorems: covenant execution always terminates; checked totals cannot overflow; mint arithmetic cannot overflow; swaps / withdrawals are guarded; consistent counts never underflow; a whole batch of arbitrary transactions never panics (state or rejection) under stated invariants and bounds (counts consistent, history below the current height with positive speeds, height <= 3*10^6, mint difficulty <= 40, input sums < 2^128); and a whole seal never panics, for any proposer action (C09_seal_never_panics: every settlement phase, the peg, the subsidy and the reward are total), on states satisfying C20's invariant, with live built-in pools the block's withdrawals cannot drain (C16), height below TIP-909 + 128 million and fee pool + tips + MEL/SYM reserve below 2^128. Checked on the real code: every call of every stream runs under catch_unwind in a debug build; any panic is a violation, and the model's explicit Panic outcomes are compared with the real ones.",
                      'Partial: totality of seal / apply_block over whole histories, allocation, stack depth and dependency internals are not proved.', 'Coq proof (per-panic-site unreachability, whole-batch totality) + catch_unwind exploration with adversarial inputs'),
-    "C02": _stf_text("Coq theorems: the coin map after an accepted batch is every insertion of the batch followed by the removal of every input; under the hash assumptions this is the set equation (inputs gone, each non-destroyed output present with exactly the declared value/covenant/data/height/denomination, markers present, every other coin untouched); acceptance implies well-formedness, no coin consumed twice, every input unspent before or created in the batch - for all states and batches.",
+    "C02": _stf_text("Coq theorems: the coin map after an accepted batch is every insertion of the batch followed by the removal of every input; under the hash assumptions this is the set equation (inputs gone, each non-destroyed output present with exactly the declared value/covenant/data/height/denomination, markers present, every other coin untouched); acceptance implies well-formedness, no coin consumed twice, every input unspent before or created in the batch - for all states and batches; over whole histories an unspent coin is never lost (it is in the coin tree, unchanged, after every history that does not spend it - C02_unspent_coin_is_never_lost) and a spent one is gone.",
                      "Hash-oracle assumptions stated as hypotheses.", "Coq proof (gmap fold lemmas, list induction) + differential replay + reflection against an independent map-based spec"),
     "C15": _stf_text("Coq theorems: at seal every coin that is not output 0/1 of a pool request is unchanged; a pool request has kind swap/deposit/withdraw and canonical pool data; every pool named by a block's requests is settled exactly once per phase (the key list has no duplicates); swap_many pays floor(in*other'*995/(own'*1000)) on each side, keeps reserves positive, never decreases the product; pro-rata shares never exceed the total; at the level of the state the reserves of every pool move by what is taken from / paid into the request coins (never less), over all pools and the three phases of a block.",
                      'Arithmetic theorems assume sums below 2^128; request coins as declared (C02).', 'Coq proof (nia over N, induction over settlement loops and pools, sortedness of the key list) + differential replay + reflection'),
@@ -121,17 +121,17 @@ MANIFEST_TEXT = {
                      "The serialized size is an oracle field.", "Coq proof (induction over the batch) + differential replay + reflection"),
     "C06": _stf_text("Coq theorems: apply_block succeeds iff the transactions apply to the successor state, the result seals and the recomputed header equals the declared one; the returned state has that header; honest blocks are accepted; a differing header is rejected - for all states, blocks and root functions.",
                      "Header equality is record equality over 11 fields; roots are an arbitrary function of the state.", "Coq proof (unfolding/case analysis) + differential replay + mutation harness"),
-    "C07": _stf_text("Coq theorems. State level: the header records the state's scalars and the five roots, the successor state is one higher on the same network with the parent header stored at the parent's height, the child's header points at the parent's hash. Merkle level (novasmt sparse tree over an abstract hash, no size bound): the root is a function of the contents alone, every present or absent key has a proof that verifies, and for a collision-free hash a verifying proof determines the value and any differing entry changes the root. The dense tree of novasmt::dense (transactions under TIP-908) is reduced to the same tree: its root is the root of the perfect tree over the blocks, every block has a proof verify_dense accepts, an accepted proof determines the block. Tied to novasmt by recomputing roots and proofs of small real sparse and dense trees with tables of the real hash evaluations, and by checking membership/absence proofs and order-independence on every sealed state.",
+    "C07": _stf_text("Coq theorems. State level: the header records the state's scalars and the five roots, the successor state is one higher on the same network with the parent header stored at the parent's height, the child's header points at the parent's hash. Merkle level (novasmt sparse tree over an abstract hash, no size bound): the root is a function of the contents alone, every present or absent key has a proof that verifies, and for a collision-free hash a verifying proof determines the value and any differing entry changes the root. The dense tree of novasmt::dense (transactions under TIP-908) is reduced to the same tree: its root is the root of the perfect tree over the blocks, every block has a proof verify_dense accepts, an accepted proof determines the block. Tied to novasmt by recomputing roots and proofs of small real sparse and dense trees with tables of the real hash evaluations, and by checking membership/absence proofs and order-independence on every sealed state. Over whole histories (C07_every_reachable_history_is_a_chain): every reachable state's history holds one header per lower height, each with its own height and the chain's network and the hash of the header one below.",
                      "Soundness assumes a collision-free hash (hypothesis).", "Coq proof (depth induction over an abstract hash; state-level unfolding) + differential recomputation of real novasmt roots/proofs"),
-    "C08": _stf_text("Coq theorem: from_block(to_block s) = s as states (Leibniz equality, hence identical behaviour under every continuation) whenever no tips are pending, and the refutation for pending tips (known finding F16); the harness runs three further blocks on both lineages after every restart.",
+    "C08": _stf_text("Coq theorem: from_block(to_block s) = s as states (Leibniz equality, hence identical behaviour under every continuation) whenever no tips are pending, and the refutation for pending tips (known finding F16); the harness runs three further blocks on both lineages after every restart. Over whole histories: every block sealed with a proposer action restarts exactly (C08_every_block_sealed_with_an_action_restarts_exactly; the keyed-transaction-set hypothesis is part of C20's invariant).",
                      "The store is modelled as returning the same maps.", "Coq proof (record equality) + lock-step continuation check"),
     "C13": _stf_text("Coq theorems: a stake is registered iff the five stated conditions hold; the stake set after a batch is exactly old plus registered; malformed stake transactions reject the batch; an accepted batch spends no output of a staked transaction (including same-batch stakes); at each block boundary exactly the stakes with end >= new epoch survive; sealing keeps the stakes; over whole histories (C13_registration_locks, C13_locked_for_life): from the batch that registers a stake, the staked coin is in the coin tree unchanged and the stake in the set in every state of every history whose block boundaries stay within the life of the stake.",
                      "Legacy heights (F20) appear as explicit guards in the statements.", "Coq proof (induction over batch / map filter) + differential replay + reflection"),
     "C14": _stf_text("Coq theorems: confirm = true iff all signatures verify and 3*present > 2*total (the overflow-free threshold of the code is proved equal to that); never below two thirds, empty proofs never confirm, full proofs confirm, adding a valid signature is monotone - for all stake sets and proofs.",
                      "Ed25519 is an oracle.", "Coq proof (integer arithmetic, list induction) + differential replay + reflection"),
-    "C17": _stf_text("Coq theorems: seal leaves the multiplier unchanged without an action and applies move_fee_multiplier with one; that function equals trunc(max(m/128,floor)*d/128) saturated to the u128 range, moves by at most max(m/128,2), never wraps - for every m < 2^128 and d in [-128,127].",
+    "C17": _stf_text("Coq theorems: seal leaves the multiplier unchanged without an action and applies move_fee_multiplier with one; that function equals trunc(max(m/128,floor)*d/128) saturated to the u128 range, moves by at most max(m/128,2), never wraps - for every m < 2^128 and d in [-128,127]; in a history nothing but a block sealed with a proposer action moves it (C17_only_the_proposer_step_moves_it).",
                      "", "Coq proof (lia with div/mod) + differential replay + reflection"),
-    "C18": _stf_text("Coq theorems: an accepted mint has a decodable proof valid under one of the two hashes for the seed header at the coin's creation height and the coin id, difficulty in 1..64, the mainnet age rule, ERG outputs within dosc_to_erg(calculate_reward(...)); every mint of an accepted batch was validated; the DOSC speed never decreases in a batch and is kept by seal.",
+    "C18": _stf_text("Coq theorems: an accepted mint has a decodable proof valid under one of the two hashes for the seed header at the coin's creation height and the coin id, difficulty in 1..64, the mainnet age rule, ERG outputs within dosc_to_erg(calculate_reward(...)); every mint of an accepted batch was validated; the DOSC speed never decreases in a batch, is kept by seal, and never decreases over any history (C18_speed_never_decreases).",
                      "melpow verification is an oracle.", "Coq proof (case analysis) + differential replay + reflection"),
     "C19": _stf_text("Coq theorems: on mainnet an accepted batch contains no faucet but the grandfathered hash; a faucet whose marker is in the coin tree makes the batch fail (same batch, later batches); acceptance inserts the marker and batches that do not spend it keep it; over whole histories (C19_at_most_once_anywhere): the marker is locked by the covenant hash 0, survives every later batch and block boundary, and every later batch containing a faucet with the same hash is refused.",
                      "Markers are assumed distinct from other coin ids (hash oracle).", "Coq proof (induction over the batch) + differential replay + reflection"),
